@@ -26,10 +26,66 @@ var replayFamilies = map[string]replayFamily{
 	"seq-iter":  {"seq_iter_replay_test.go", "seq", "TestVerifReplayIter"},
 	"seq-diff":  {"seq_diff_replay_test.go", "seq", "TestVerifReplayDiff"},
 	"seq-stack": {"seq_stack_replay_test.go", "seq", "TestVerifReplayStack"},
+	"rw-term":   {"rw_term_replay_test.go", "rewriter", "TestVerifReplayTerm"},
+	"rw-unit":   {"rw_unit_replay_test.go", "rewriter", "TestVerifReplayUnit"},
+}
+
+// familyFor picks the replay family for a failed obligation: by unit, else the property's default.
+func familyFor(obligation, def string) string {
+	type rule struct{ prefix, family string }
+	rules := []rule{
+		{"seq.integerIter", "seq-iter"}, {"seq.stringIter", "seq-iter"}, {"seq.sliceIter", "seq-iter"}, {"seq.mapIter", "seq-iter"}, {"seq.chanIter", "seq-iter"},
+		{"seq.NewIntegerIter", "seq-iter"}, {"seq.NewStringIter", "seq-iter"}, {"seq.NewSliceIter", "seq-iter"}, {"seq.NewMapIter", "seq-iter"}, {"seq.NewChanIter", "seq-iter"},
+		{"rewriter.hasBreak", "rw-term"}, {"rewriter.terminationChecker", "rw-term"},
+		{"rewriter.", "rw-samples"},
+	}
+	for _, r := range rules {
+		if strings.HasPrefix(obligation, r.prefix) {
+			return r.family
+		}
+	}
+	return def
+}
+
+// runSamples: the compiler sample corpus (replay/samples) through the real compiler of the repo under check.
+func (en *Engine) runSamples(verif string) string {
+	known := map[string]bool{}
+	if b, err := os.ReadFile(filepath.Join(verif, "replay", "known_sample_failures.txt")); err == nil {
+		for _, l := range strings.Fields(string(b)) {
+			known[l] = true
+		}
+	}
+	ctx, cancel := context.WithTimeout(context.Background(), 600*time.Second)
+	defer cancel()
+	cmd := exec.CommandContext(ctx, filepath.Join(verif, "replay", "run_samples.sh"), en.repo)
+	var out bytes.Buffer
+	cmd.Stdout = &out
+	cmd.Stderr = &out
+	_ = cmd.Run()
+	var bad []string
+	n := 0
+	for _, l := range strings.Split(out.String(), "\n") {
+		f := strings.Fields(l)
+		if len(f) < 2 {
+			continue
+		}
+		n++
+		name := strings.TrimSuffix(f[1], ":")
+		if f[0] == "SAMPLE-FAIL" && !known[name] {
+			bad = append(bad, strings.TrimSpace(l))
+		}
+	}
+	if len(bad) > 0 {
+		return "REPRODUCED: " + trunc(strings.Join(bad, " | "), 3000)
+	}
+	return fmt.Sprintf("NOT-REPRODUCED: all %d compiler samples behave as expected (recorded findings excepted)", n)
 }
 
 // runReplayFamily runs the replay test of a family against the repo under check.
 func (en *Engine) runReplayFamily(family, id, verif string) string {
+	if family == "rw-samples" {
+		return en.runSamples(verif)
+	}
 	fam, ok := replayFamilies[family]
 	if !ok {
 		return "NO-REPLAY-TEMPLATE: no concrete replay harness exists for this obligation family"
